@@ -58,6 +58,7 @@ type Desc struct {
 	TimeoutMs int    `json:"timeout_socket_ms"`
 	ReadSize  int    `json:"read_size"`
 	Tail      string `json:"tail,omitempty"` // hex: plain bytes the server sends after Open has returned
+	Family    string `json:"family,omitempty"` // "" dense (gaps <= 2 ms) | "paced" (bursts separated by pauses below the per-read window)
 }
 
 func wireOf(items []Item) []byte {
@@ -327,6 +328,70 @@ func GenDesc(r *rand.Rand) Desc {
 	return d
 }
 
+// GenPaced draws a paced opening: 4-8 bursts, the first sent at once, separated by pauses of 25-45 %
+// of the per-read window (TimeoutSocket/2), total span 0.6-1.5 x TimeoutSocket, a request in every
+// burst including the last. The negotiation phase must survive: its window is re-armed per byte.
+func GenPaced(r *rand.Rand) Desc {
+	d := Desc{Family: "paced", SegMode: "paced"}
+	d.TimeoutMs = []int{800, 1200}[r.Intn(2)]
+	winUs := d.TimeoutMs * 1000 / 2
+	var pauses []int
+	for {
+		pauses = pauses[:0]
+		nb := 4 + r.Intn(5)
+		sum := 0
+		for i := 1; i < nb; i++ {
+			p := winUs/4 + r.Intn(winUs*20/100+1) // 25-45 % of the window
+			pauses = append(pauses, p)
+			sum += p
+		}
+		if sum >= d.TimeoutMs*600 && sum <= d.TimeoutMs*1500 {
+			break
+		}
+	}
+	for b := 0; b <= len(pauses); b++ {
+		var items []Item
+		n := 1 + r.Intn(4)
+		w := [][4]int{{4, 2, 1, 3}, {2, 1, 1, 3}, {1, 0, 0, 1}}[r.Intn(3)]
+		for i := 0; i < n; i++ {
+			items = append(items, genItem(r, w))
+		}
+		// a request in every burst, at a random position
+		k := r.Intn(len(items) + 1)
+		items = append(items[:k], append([]Item{{K: "neg", V: verbs[r.Intn(4)], O: genOpt(r)}}, items[k:]...)...)
+		if r.Intn(2) == 0 {
+			items = append(items, Item{K: "text", X: hex.EncodeToString(genText(r))})
+		}
+		L := len(wireOf(items))
+		// the burst in 1-3 segments with tiny gaps
+		var segs []int
+		rest := L
+		for c := r.Intn(3); c > 0 && rest > 1; c-- {
+			x := 1 + r.Intn(rest-1)
+			segs = append(segs, x)
+			rest -= x
+		}
+		segs = append(segs, rest)
+		for i, x := range segs {
+			g := r.Intn(400)
+			if i == 0 {
+				g = 0
+				if b > 0 {
+					g = pauses[b-1]
+				}
+			}
+			d.Segs = append(d.Segs, x)
+			d.GapsUs = append(d.GapsUs, g)
+		}
+		d.Items = append(d.Items, items...)
+	}
+	d.ReadSize = []int{1, 7, 8192, 65535}[r.Intn(4)]
+	if r.Intn(2) == 0 {
+		d.Tail = hex.EncodeToString(genText(r))
+	}
+	return d
+}
+
 // ---------------------------------------------------------------------------------------------
 // loopback server
 
@@ -348,11 +413,16 @@ type server struct {
 	lastWriteT   time.Time
 	deliveredSeq int64 // event number at which the kernel reported the whole opening sent and acknowledged (0: never seen)
 	deliveredT   time.Time
-	retrans      uint32  // TCP retransmissions on the server's socket
-	worstGap     float64 // worst (gap between write completions) / (the client's read window for that byte)
-	recv         []byte
-	recvErr      error
-	log          []string
+	retrans      uint32 // TCP retransmissions on the server's socket
+	lastAckT     time.Time
+	bursts       int
+	// pacedGap: worst upper bound of a wait the client can have seen, as a fraction of its window:
+	// (burst acknowledged - burst started) and (burst acknowledged - previous burst's last write started)
+	pacedGap float64
+	worstGap float64 // worst (gap between write completions) / (the client's read window for that byte)
+	recv     []byte
+	recvErr  error
+	log      []string
 }
 
 // tcpStat reads the kernel's view of the server socket (TCP_INFO): segments sent but not yet
@@ -385,6 +455,30 @@ func tcpInfo(tc *net.TCPConn) tcpStat {
 	return st
 }
 
+const pauseMinUs = 20000
+
+// awaitAck polls TCP_INFO until everything written so far is sent and acknowledged and the time
+// `until` has passed; returns when the acknowledgement was first seen.
+func (s *server) awaitAck(tc *net.TCPConn, until time.Time) (ackT time.Time, acked bool) {
+	for i := 0; i < 8000; i++ {
+		if !acked {
+			st := tcpInfo(tc)
+			if !st.ok {
+				return ackT, false
+			}
+			s.retrans = st.retrans
+			if st.unacked == 0 && st.notsent == 0 {
+				acked, ackT = true, time.Now()
+			}
+		}
+		if acked && !time.Now().Before(until) {
+			return ackT, true
+		}
+		time.Sleep(time.Millisecond)
+	}
+	return ackT, false
+}
+
 func (s *server) run() {
 	defer close(s.done)
 	c, err := s.ln.Accept()
@@ -410,10 +504,44 @@ func (s *server) run() {
 	}()
 	prev := s.t0
 	off := 0
+	// bursts: a gap of pauseMinUs or more is a pause; the bytes before it form a burst whose
+	// acknowledgement by the client's kernel is awaited (and timed) during the pause
+	burst := 0
+	burstStart := s.t0 // burst 0 is measured from the dial: the first window starts there
+	var lastWriteStart, prevLastWriteStart time.Time
+	endBurst := func(until time.Time) bool {
+		ackT, ok := s.awaitAck(tc, until)
+		if !ok {
+			s.pacedGap = 1e9
+			return false
+		}
+		win := s.window / 2
+		if burst == 0 {
+			win = s.window / 4
+		}
+		if f := float64(ackT.Sub(burstStart)) / float64(win); f > s.pacedGap {
+			s.pacedGap = f
+		}
+		if burst > 0 {
+			// the client re-armed its deadline no earlier than the previous burst's last byte was written;
+			// this burst was in its receive queue no later than the acknowledgement was seen
+			if f := float64(ackT.Sub(prevLastWriteStart)) / float64(s.window/2); f > s.pacedGap {
+				s.pacedGap = f
+			}
+		}
+		s.lastAckT = ackT
+		burst++
+		return true
+	}
 	for i, n := range s.segs {
-		if g := s.gaps[i]; g > 0 {
+		if g := s.gaps[i]; g >= pauseMinUs && i > 0 {
+			endBurst(prev.Add(time.Duration(g) * time.Microsecond))
+			prevLastWriteStart = lastWriteStart
+			burstStart = time.Now()
+		} else if g > 0 {
 			time.Sleep(time.Duration(g) * time.Microsecond)
 		}
+		lastWriteStart = time.Now()
 		if _, err := c.Write(s.wire[off : off+n]); err != nil {
 			s.err = fmt.Errorf("server write of segment %d: %w", i, err)
 			break
@@ -432,19 +560,11 @@ func (s *server) run() {
 	s.lastWriteT = time.Now()
 	s.lastWriteSeq = s.seq.Add(1)
 	// wait until the client's kernel has acknowledged every byte of the opening
-	for i := 0; i < 5000 && s.err == nil; i++ {
-		st := tcpInfo(tc)
-		if !st.ok {
-			break
-		}
-		s.retrans = st.retrans
-		if st.unacked == 0 && st.notsent == 0 {
-			s.deliveredT = time.Now()
-			s.deliveredSeq = s.seq.Add(1)
-			break
-		}
-		time.Sleep(time.Millisecond)
+	if s.err == nil && endBurst(time.Time{}) {
+		s.deliveredT = s.lastAckT
+		s.deliveredSeq = s.seq.Add(1)
 	}
+	s.bursts = burst
 	select {
 	case <-s.openDone:
 	case <-time.After(90 * time.Second):
@@ -889,6 +1009,33 @@ func runOnce(d Desc) (res mon.Result, earlyPattern bool) {
 		tags = append(tags, "last-item="+d.Items[len(d.Items)-1].K)
 	}
 	nontrivial := special >= 1 && len(d.Segs) >= 2
+	if d.Family == "paced" {
+		tags = append(tags, "family=paced")
+		obs["paced_openings"]++
+		obs["paced_bursts"] += int64(srv.bursts)
+		// requests whose first byte was written later than TimeoutSocket/2 after the dial (by the schedule)
+		at, woff, late := 0, 0, 0
+		segEnd := 0
+		si := 0
+		st := refParse(wire).state
+		for i := range wire {
+			for si < len(d.Segs) && i >= segEnd {
+				at += d.GapsUs[si]
+				segEnd += d.Segs[si]
+				si++
+			}
+			if wire[i] == bIAC && st[i] == 0 && i+1 < len(wire) && wire[i+1] >= bWILL && wire[i+1] <= bDONT && at > d.TimeoutMs*500 {
+				late++
+			}
+			_ = woff
+		}
+		obs["paced_requests_later_than_half_timeout"] += int64(late)
+		span := 0
+		for _, g := range d.GapsUs {
+			span += g
+		}
+		nontrivial = late >= 1 && span > d.TimeoutMs*500
+	}
 	tags = dedupe(tags)
 
 	var keys, details []string
@@ -916,13 +1063,16 @@ func runOnce(d Desc) (res mon.Result, earlyPattern bool) {
 				}
 			}
 			if !orderOK || margin < T/4 {
-				// the window ended before, or about when, the last byte got there. A defect only if the
-				// whole opening was in the client's receive queue well inside the *first* window.
-				if srv.deliveredSeq == 0 || srv.retrans != 0 || srv.worstGap > 0.25 || srv.deliveredT.Sub(t0) > T/8 {
+				// the window ended before, or about when, the last byte got there. A defect only if every
+				// burst was in the client's receive queue well inside the window that applied to it:
+				// acknowledged within 60 % of TimeoutSocket/4 from the dial (first burst) resp. of
+				// TimeoutSocket/2 from the start of the previous burst's last write and from its own start.
+				if srv.deliveredSeq == 0 || srv.retrans != 0 || srv.pacedGap >= 0.6 {
 					return inconclusive(earlyMsg)
 				}
 				keys = []string{"c15/negotiation-window-ended-early"}
-				details = append(details, fmt.Sprintf("the whole opening was acknowledged by the client's kernel %s after the dial started (first window %s), no retransmission", srv.deliveredT.Sub(t0), T/4))
+				details = append(details, fmt.Sprintf("every one of the %d bursts was acknowledged by the client's kernel within %.2f of the read window that applied to it (TimeoutSocket/4 = %s from the dial for the first, TimeoutSocket/2 = %s re-armed after every byte later), no retransmission; Open returned after %s",
+					srv.bursts, srv.pacedGap, T/4, T/2, openT.Sub(t0)))
 			}
 			details = append(details, fmt.Sprintf("the observation equals a client whose negotiation phase ended after %d of %d bytes", n, len(wire)))
 		} else if !orderOK {
@@ -976,11 +1126,13 @@ func init() {
 		Rule: "PRNG-generated telnet openings (0-35 items: IAC DO/DONT/WILL/WONT x option codes incl. 3, 255 and codes equal to command bytes; " +
 			"two-byte commands 241-249; escaped IAC IAC; text incl. bytes 240-254 as plain data) sent over real loopback TCP in PRNG segments " +
 			"(whole / per byte / geometric / exactly inside every IAC sequence / mixed; gaps 0-2 ms), socket timeout 600-1600 ms, read size 1-65535, " +
-			"optional plain tail sent after Open. Non-trivial = opening with >=1 two-byte command or escaped IAC and >=2 TCP segments. Distinct = distinct descriptor hash.",
+			"optional plain tail sent after Open. Non-trivial = opening with >=1 two-byte command or escaped IAC and >=2 TCP segments. " +
+			"Paced family (24 quick / 300 thorough): timeout 800/1200 ms, 4-8 bursts (a request in each), first at once, pauses 25-45 % of TimeoutSocket/2, span 0.6-1.5 x timeout; " +
+			"non-trivial = a request scheduled later than TimeoutSocket/2 after the dial. Distinct = distinct descriptor hash.",
 		Assumptions: []string{
 			"no subnegotiation (IAC SB ... IAC SE) and no IAC followed by a byte below 241 other than in a negotiation (outside the quantifier)",
 			"every byte of the opening reaches the client inside its negotiation window: judged only if the kernel reported the whole opening sent and acknowledged (TCP_INFO of the server socket: unacked=0, notsent=0) before Open returned (shared event counter, no durations); " +
-				"an outcome equal to a correct client's whose window ended early is a violation only if the opening was acknowledged within timeout/8 of the dial, without retransmission, with the load canary quiet - otherwise inconclusive",
+				"an outcome equal to a correct client's whose window ended early is a violation only if every burst was acknowledged within 60 % of the read window applying to it (timeout/4 from the dial for the first; timeout/2 from the previous burst's last write for later ones), without retransmission, canary and PSI quiet, reproduced 3 of 3 - otherwise inconclusive",
 			"linux, little-endian (struct tcp_info offsets 24/100/144)",
 			"an escaped IAC IAC may be delivered as one or two 0xff bytes (consistently within a case)",
 			"bytes after Open (the tail) carry no 0xff; the server half-closes after the tail so that the reads end with io.EOF instead of a quiet period",
@@ -993,6 +1145,14 @@ func init() {
 			}
 			r := rand.New(rand.NewSource(seed*104729 + 15))
 			cs := make([]mon.Case, 0, n)
+			np := 24
+			if tier == "thorough" {
+				np = 300
+			}
+			rp := rand.New(rand.NewSource(seed*15485863 + 151))
+			for i := 0; i < np; i++ {
+				cs = append(cs, mon.MkCase(fmt.Sprintf("c15/p%04d", i), GenPaced(rp)))
+			}
 			for i := 0; i < n; i++ {
 				cs = append(cs, mon.MkCase(fmt.Sprintf("c15/%05d", i), GenDesc(r)))
 			}
